@@ -84,7 +84,7 @@ def tables(model, R):
         for name, symbol, order, pat in rows:
             kind = name.lower()
             want = spec.get(pat)
-            R.check(want == kind, 'TABLE', fn, cls.node, f'{clsname} row {name}: pattern {sorted(pat)}',
+            R.decided(want == kind, 'TABLE', fn, cls.node, f'{clsname} row {name}: pattern {sorted(pat)}',
                     f'kind {want!r} for the combinations {sorted(pat)}' if want else 'a feasible pattern',
                     f'{kind!r} bound to {sorted(pat)}')
             if pat in patterns:
@@ -96,7 +96,7 @@ def tables(model, R):
             all_ranks[order] = kind
         missing = feasible - set(patterns)
         extra = set(patterns) - feasible
-        R.check(not missing and not extra, 'TABLE', fn, cls.node, f'{clsname}: exhaustive over the feasible patterns',
+        R.decided(not missing and not extra, 'TABLE', fn, cls.node, f'{clsname}: exhaustive over the feasible patterns',
                 f'{len(feasible)} patterns', f'missing {[sorted(m) for m in missing]}, infeasible {[sorted(m) for m in extra]}')
     got = [all_ranks[k] for k in sorted(all_ranks)]
     R.check(got == RANK_ORDER, 'TABLE', 'junctors', mod.tree, 'ranks in the documented order', ' < '.join(RANK_ORDER), ' < '.join(got))
